@@ -1,0 +1,51 @@
+//go:build verif
+
+package txpool
+
+import "github.com/oasisprotocol/oasis-core/go/common/crypto/hash"
+
+// VerifScheduler exposes the package-private main queue scheduler to the
+// verification harness (build tag "verif" only).
+type VerifScheduler struct {
+	s *mainQueueScheduler
+}
+
+// VerifNewScheduler creates a main queue scheduler with the given capacity.
+func VerifNewScheduler(capacity int) *VerifScheduler {
+	return &VerifScheduler{s: newMainQueueScheduler(capacity)}
+}
+
+// VerifNewTx creates transaction metadata with the given raw bytes.
+func VerifNewTx(raw []byte) *TxQueueMeta {
+	return &TxQueueMeta{raw: raw, hash: hash.NewFromBytes(raw)}
+}
+
+// Add adds a transaction (the scheduler-level add, without the forward that
+// mainQueue.Add performs first).
+func (v *VerifScheduler) Add(tx *TxQueueMeta, sender string, seq, priority, stateSeq uint64) error {
+	return v.s.add(newMainQueueTransaction(tx, sender, seq, priority), stateSeq)
+}
+
+// Forward forwards the sender's queue.
+func (v *VerifScheduler) Forward(sender string, seq uint64) { v.s.forward(sender, seq) }
+
+// Reset resets the ongoing schedule.
+func (v *VerifScheduler) Reset() { v.s.reset() }
+
+// Schedule continues the ongoing schedule.
+func (v *VerifScheduler) Schedule(limit int) []*TxQueueMeta { return v.s.schedule(limit) }
+
+// HandleTxUsed removes a used transaction and forwards its sender.
+func (v *VerifScheduler) HandleTxUsed(h hash.Hash) { v.s.handleTxUsed(h) }
+
+// All returns all transactions.
+func (v *VerifScheduler) All() []*TxQueueMeta { return v.s.all() }
+
+// Drain removes and returns all transactions.
+func (v *VerifScheduler) Drain() []*TxQueueMeta { return v.s.drain() }
+
+// Size returns the number of transactions.
+func (v *VerifScheduler) Size() int { return v.s.size() }
+
+// Has reports whether a transaction with the given hash is in the scheduler.
+func (v *VerifScheduler) Has(h hash.Hash) bool { _, ok := v.s.get(h); return ok }
